@@ -166,6 +166,88 @@ let classify (row : xrow) (t : xetop) : string =
     (if (match t with ETop (ENum q) -> not (Z.ltb q.qnum Z0) | _ -> false) then "numeric_literal_item" else "") ])
   |> (fun s -> if s = "" then "unclassified" else s)
 
+
+(* ---- G lines: built-ins with a Gallina meaning in Model/ExprFuncs.v (arrays of scalars included) ---- *)
+let parse_scalar (v : string) : xvalue =
+  let body = String.sub v 1 (String.length v - 1) in
+  match v.[0] with
+  | 'N' -> VNull
+  | 'i' | 'f' | 'n' -> VNum (q_of_string body)
+  | 's' -> VStr (bytes_of_hex body)
+  | 'b' -> VBool (body = "1")
+  | _ -> failwith ("bad scalar " ^ v)
+let split_elems (body : string) : string list = if body = "" then [] else String.split_on_char ',' body
+(* the row, and the names of the columns that hold a Go int (reflect.DeepEqual tells it from a float64) *)
+let parse_yrow (toks : string list) : (n list * yvalue) list * n list list =
+  let ints = ref [] in
+  let row = List.filter_map (fun t ->
+    if t = "-" then None else
+    match String.index_opt t ':' with
+    | None -> failwith ("bad cell " ^ t)
+    | Some i ->
+        let k = bytes_of_hex (String.sub t 0 i) in
+        let v = String.sub t (i + 1) (String.length t - i - 1) in
+        if v.[0] = 'A' then begin
+          let es = split_elems (String.sub v 1 (String.length v - 1)) in
+          if List.exists (fun e -> e.[0] = 'i') es then ints := k :: !ints;
+          Some (k, YA (List.map parse_scalar es))
+        end else begin
+          if v.[0] = 'i' then ints := k :: !ints;
+          Some (k, YS (parse_scalar v))
+        end) toks in
+  (row, !ints)
+let show_yval = function
+  | YS v -> show_val v
+  | YA l -> "A" ^ String.concat "," (List.map show_val l)
+let yval_matches (obs : string) (v : yvalue) : bool =
+  match v with
+  | YS x -> val_matches obs x
+  | YA l ->
+      String.length obs >= 1 && obs.[0] = 'A' &&
+      (let es = split_elems (String.sub obs 1 (String.length obs - 1)) in
+       List.length es = List.length l && List.for_all2 val_matches es l)
+let str_of_bytes (b : n list) : string =
+  let h = hex_of_bytes b in
+  if h = "-" then "" else String.init (String.length h / 2) (fun i -> Char.chr (int_of_string ("0x" ^ String.sub h (2 * i) 2)))
+(* where the documented equality of numbers (3 = 3.0) and reflect.DeepEqual / Go map keys part ways *)
+let deep_equal_fns = [ "null_if"; "array_contains"; "array_position"; "array_remove" ]
+let g_tags (ints : n list list) (t : xetop) : string =
+  let es = top_exprs t in
+  let is_int_lit = function ENum q -> q.qden = XH | _ -> false in
+  let is_int_col = function ECol c -> List.mem c ints | _ -> false in
+  let compared g a = (match str_of_bytes g, a with
+    | "null_if", [ x; y ] -> [ x; y ]
+    | ("array_contains" | "array_position" | "array_remove"), [ _; y ] -> [ y ]
+    | _ -> []) in
+  let has f = List.exists (function ECall (g, a) -> List.exists f (compared g a) | _ -> false) es in
+  String.concat "," (List.filter (fun x -> x <> "") [
+    (if List.exists bad_arity es then "arity" else "");
+    (if has is_int_lit then "int_literal" else "");
+    (if has is_int_col then "int_column" else "");
+    (* a failing round(x, p): the bridge re-evaluates the text with expr-lang's own round *)
+    (if List.exists (function ECall (g, [ _; _ ]) -> str_of_bytes g = "round" | _ -> false) es then "round2" else "") ])
+  |> (fun s -> if s = "" then "-" else s)
+
+let handle_g (path : string) (shape : string) (fname : string) (rest : string list) : string =
+  match Win.split_hash rest with
+  | [ _; enc; rowt; [ obs ] ] ->
+      let et = p_top enc in
+      let (row, ints) = parse_yrow rowt in
+      let tags = g_tags ints et in
+      let where = path ^ " " ^ shape ^ " " ^ tags ^ " " ^ fname in
+      if obs = "PANIC" then "chk function_panic " ^ where
+      else
+      (match ysem_top row et with
+       | YUnm -> "ok"
+       | YOk v ->
+           if yval_matches obs v then "ok nt"
+           else "chk function_value " ^ where ^ " impl=" ^ obs ^ " spec=" ^ show_yval v
+       | YErr ->
+           (* an error: the engine and the bridge report it, a SELECT item becomes NULL *)
+           if (path = "select" && obs = "N") || (path <> "select" && obs = "e") then "ok"
+           else "chk function_error_expected " ^ where ^ " impl=" ^ obs)
+  | _ -> "bad line"
+
 let rec more_handle (toks : string list) : string =
   match toks with
   | "B" :: _ :: rest ->
@@ -259,6 +341,7 @@ let rec more_handle (toks : string list) : string =
             | Some v -> "chk function_value " ^ path ^ " " ^ shape ^ " impl=" ^ obs ^ " spec=" ^ show_val v
             | None -> "ok")
        | _ -> "bad line")
+  | "G" :: path :: shape :: fname :: _ :: rest -> handle_g path shape fname rest
   | "M" :: _ :: verdict :: sqlv :: _ ->
       if verdict = "ok" && sqlv <> "PANIC" then "ok" else "chk malformed_" ^ verdict
   | _ -> "bad line"
